@@ -97,6 +97,20 @@ theorem Pres_modIx {x : Option Nat} (sd : Sd) (f : SideIdx → SideIdx) : Pres x
 theorem Pres_modChangeset {x : Option Nat} (f : List Nat → List Nat) : Pres x (modChangeset f) :=
   ⟨fun _ => ⟨rfl, rfl, fun _ h => h, fun _ => Or.inl rfl, fun _ => rfl⟩⟩
 
+theorem Pres_modMoving {x : Option Nat} (f : List Nat → List Nat) : Pres x (modMoving f) :=
+  ⟨fun _ => ⟨rfl, rfl, fun _ h => h, fun _ => Or.inl rfl, fun _ => rfl⟩⟩
+
+/-- `try … finally` with a handler that only touches `_kids_moving` -/
+theorem Pres_finallyM {α} {x : Option Nat} {m : M α} (h : Pres x m) (f : List Nat → List Nat) :
+    Pres x (finallyM m fun s => { s with moving := f s.moving }) := by
+  constructor
+  intro a
+  have := h.run a
+  simp only [finallyM]
+  rcases hm : m a with ⟨r, s'⟩
+  simp only [hm] at this ⊢
+  exact this.trans ⟨rfl, rfl, fun _ h => h, fun _ => Or.inl rfl, fun _ => rfl⟩
+
 theorem mem_sadd {s : List Nat} {x y : Nat} : y ∈ sadd s x ↔ y ∈ s ∨ y = x := by
   unfold sadd
   split
@@ -245,14 +259,18 @@ section
 variable (rec : Call → M Unit) (hrec : ∀ c, Pres none (rec c))
 include hrec
 
+theorem Pres_updateKidsOf (i : Nat) (sd : Sd) (pp p : Val) : Pres (some i) (updateKidsOf rec i sd pp p) := by
+  unfold updateKidsOf
+  pres
+
 theorem Pres_updateKids (i : Nat) (sd : Sd) (pp p : Val) : Pres (some i) (updateKids rec i sd pp p) := by
   unfold updateKids
-  pres
+  exact Pres_bind (Pres_modMoving _) (fun _ => Pres_finallyM (Pres_updateKidsOf rec hrec i sd pp p) _)
 
 
 theorem Pres_changePath (i : Nat) (sd : Sd) (p : Val) : Pres (some i) (changePath rec i sd p) := by
   unfold changePath
-  repeat' (first | pres_step | apply Pres_updateKids rec hrec)
+  repeat' (first | apply Pres_updateKids rec hrec | pres_step)
 
 theorem Pres_changeOid (i : Nat) (sd : Sd) (p : Val) : Pres (some i) (changeOid rec i sd p) := by
   unfold changeOid
@@ -268,15 +286,15 @@ theorem Pres_updatedPriority (i : Nat) (p : Int) : Pres (some i) (updatedPriorit
 
 theorem Pres_updatedSide (i : Nat) (sd : Sd) (w : SideWrite) : Pres (some i) (updatedSide rec i sd w) := by
   unfold updatedSide
-  repeat' (first | pres_step | apply Pres_changePath rec hrec | apply Pres_changeOid rec hrec | apply Pres_updatedChanged)
+  repeat' (first | apply Pres_changePath rec hrec | apply Pres_changeOid rec hrec | apply Pres_updatedChanged rec hrec | pres_step)
 
 theorem Pres_updatedEnt (i : Nat) (w : EntWrite) : Pres (some i) (updatedEnt rec i w) := by
   unfold updatedEnt
-  repeat' (first | pres_step | apply Pres_updatedPriority rec hrec)
+  repeat' (first | apply Pres_updatedPriority rec hrec | pres_step)
 
 theorem Pres_sideSetattr (i : Nat) (sd : Sd) (w : SideWrite) : Pres (some i) (sideSetattr rec i sd w) := by
   unfold sideSetattr
-  repeat' (first | pres_step | apply Pres_updatedSide rec hrec)
+  repeat' (first | apply Pres_updatedSide rec hrec | pres_step)
 
 
 
